@@ -1,7 +1,7 @@
 SPECIFICATION TSpec
 CONSTANTS
   Clients = {"X", "Y"}
-  Defs = {"A", "B"}
+  Defs = {"A", "B", "R"}
   MaxOps = 0
   Dev = {}
 POSTCONDITION Accepted
